@@ -17,7 +17,7 @@
 //!
 //!   sockmt <kind> <cap> <threads> <per> <flushes 0|1> => <res summary>|<stats>|<datagrams>
 //!     free-running threads share one sink through one StatsdClient-like path (sink.emit); kinds
-//!     bspy | bunix.  Metrics are `t<thread>.<seq>` padded to a per-thread length.
+//!     bspy | bunix | budp | unix (unbuffered; stats only).  Metrics are `t<thread>.<seq>` padded to a per-thread length.
 //!
 //!   socklock <cap> => ok | <what went wrong>     deterministic lock-contention scenario (blocking bunix)
 
@@ -45,7 +45,8 @@ fn temp_path(tag: &str) -> PathBuf {
 }
 
 enum Peer {
-    Udp(UdpSocket),
+    /// the receiving socket and a decoy: UDP sinks are built from the address list [peer, decoy]
+    Udp(UdpSocket, UdpSocket),
     Unix(UnixDatagram, PathBuf),
 }
 
@@ -56,7 +57,7 @@ impl Peer {
         let t0 = Instant::now();
         loop {
             let r = match self {
-                Peer::Udp(s) => s.recv(&mut buf),
+                Peer::Udp(s, _) => s.recv(&mut buf),
                 Peer::Unix(s, _) => s.recv(&mut buf),
             };
             match r {
@@ -71,6 +72,20 @@ impl Peer {
             }
         }
         out
+    }
+}
+
+impl Peer {
+    /// datagrams that went to the decoy address (must be none)
+    fn decoy_count(&self) -> usize {
+        let mut n = 0;
+        if let Peer::Udp(_, d) = self {
+            let mut buf = vec![0u8; 65536];
+            while d.recv(&mut buf).is_ok() {
+                n += 1;
+            }
+        }
+        n
     }
 }
 
@@ -124,7 +139,10 @@ fn build(kind: &str, cap: &str, nb: bool) -> Option<(DynSink, Peer)> {
         "udp" | "budp" => {
             let peer = UdpSocket::bind("127.0.0.1:0").ok()?;
             peer.set_nonblocking(true).ok()?;
-            let addr = peer.local_addr().ok()?;
+            let decoy = UdpSocket::bind("127.0.0.1:0").ok()?;
+            decoy.set_nonblocking(true).ok()?;
+            let addrs = [peer.local_addr().ok()?, decoy.local_addr().ok()?];
+            let addr = &addrs[..];
             let sock = UdpSocket::bind("127.0.0.1:0").ok()?;
             sock.set_nonblocking(nb).ok()?;
             let sink: DynSink = if kind == "udp" {
@@ -135,7 +153,7 @@ fn build(kind: &str, cap: &str, nb: bool) -> Option<(DynSink, Peer)> {
                     None => Arc::new(BufferedUdpMetricSink::from(addr, sock).ok()?),
                 }
             };
-            Some((sink, Peer::Udp(peer)))
+            Some((sink, Peer::Udp(peer, decoy)))
         }
         "unix" | "bunix" | "unixgone" | "bunixgone" => {
             let path = temp_path("peer");
@@ -219,7 +237,12 @@ fn run_sock(kind: &str, cap: &str, nb: bool, drain: &str, ops: &[String]) -> Str
     if Arc::strong_count(&sink) == 1 {
         let r = catch_unwind(AssertUnwindSafe(move || drop(sink)));
         let got = peer.drain(0);
-        obs.push(format!("{}/x.x/{}", if r.is_ok() { "ok0" } else { "panic" }, dg(got)));
+        let decoy = peer.decoy_count();
+        obs.push(format!(
+            "{}/x.x/{}",
+            if r.is_ok() && decoy == 0 { "ok0".to_string() } else if decoy > 0 { format!("decoy{}", decoy) } else { "panic".to_string() },
+            dg(got)
+        ));
     } else {
         obs.push("stuck/x.x/~".to_string());
     }
@@ -246,6 +269,23 @@ fn run_mt(kind: &str, cap: usize, threads: usize, per: usize, flushes: bool) -> 
             rx_spy = Some(rx);
             Arc::new(s)
         }
+        "budp" => {
+            let p = UdpSocket::bind("127.0.0.1:0").unwrap();
+            let decoy = UdpSocket::bind("127.0.0.1:0").unwrap();
+            decoy.set_nonblocking(true).unwrap();
+            let sock = UdpSocket::bind("127.0.0.1:0").unwrap();
+            let s = BufferedUdpMetricSink::with_capacity(p.local_addr().unwrap(), sock, cap).unwrap();
+            peer = Some(Peer::Udp(p, decoy));
+            Arc::new(s)
+        }
+        "unix" => {
+            let path = temp_path("mt");
+            let p = UnixDatagram::bind(&path).unwrap();
+            let sock = UnixDatagram::unbound().unwrap();
+            let s = UnixMetricSink::from(&path, sock);
+            peer = Some(Peer::Unix(p, path));
+            Arc::new(s)
+        }
         _ => {
             let path = temp_path("mt");
             let p = UnixDatagram::bind(&path).unwrap();
@@ -262,15 +302,30 @@ fn run_mt(kind: &str, cap: usize, threads: usize, per: usize, flushes: bool) -> 
         let stop = stop.clone();
         let collected = collected.clone();
         std::thread::spawn(move || {
-            if let Peer::Unix(s, _) = &p {
-                s.set_read_timeout(Some(Duration::from_millis(20))).unwrap();
-                let mut buf = vec![0u8; 65536];
-                loop {
-                    match s.recv(&mut buf) {
-                        Ok(n) => collected.lock().unwrap().push(buf[..n].to_vec()),
-                        Err(_) => {
-                            if stop.load(Ordering::Acquire) == 1 {
-                                break;
+            let mut buf = vec![0u8; 65536];
+            match &p {
+                Peer::Unix(s, _) => {
+                    s.set_read_timeout(Some(Duration::from_millis(20))).unwrap();
+                    loop {
+                        match s.recv(&mut buf) {
+                            Ok(n) => collected.lock().unwrap().push(buf[..n].to_vec()),
+                            Err(_) => {
+                                if stop.load(Ordering::Acquire) == 1 {
+                                    break;
+                                }
+                            }
+                        }
+                    }
+                }
+                Peer::Udp(s, _) => {
+                    s.set_read_timeout(Some(Duration::from_millis(20))).unwrap();
+                    loop {
+                        match s.recv(&mut buf) {
+                            Ok(n) => collected.lock().unwrap().push(buf[..n].to_vec()),
+                            Err(_) => {
+                                if stop.load(Ordering::Acquire) == 1 {
+                                    break;
+                                }
                             }
                         }
                     }
@@ -287,13 +342,16 @@ fn run_mt(kind: &str, cap: usize, threads: usize, per: usize, flushes: bool) -> 
             let len = 6 + (t * 5) % 23;
             for i in 0..per {
                 let m = mt_metric(t, i, len);
-                match sink.emit(&m) {
-                    Ok(n) if n == m.len() => {}
-                    _ => bad += 1,
+                match catch_unwind(AssertUnwindSafe(|| sink.emit(&m))) {
+                    Ok(Ok(n)) if n == m.len() => {}
+                    Ok(_) => bad += 1,
+                    Err(_) => bad += 1000000,
                 }
                 if flushes && i % 9 == t % 9 {
-                    if sink.flush().is_err() {
-                        bad += 1;
+                    match catch_unwind(AssertUnwindSafe(|| sink.flush())) {
+                        Ok(Ok(())) => {}
+                        Ok(_) => bad += 1,
+                        Err(_) => bad += 1000000,
                     }
                 }
                 if i % 5 == 0 {
@@ -304,9 +362,9 @@ fn run_mt(kind: &str, cap: usize, threads: usize, per: usize, flushes: bool) -> 
         }));
     }
     let bad: usize = hs.into_iter().map(|h| h.join().unwrap_or(1000000)).sum();
-    let fl = sink.flush().is_ok();
-    let stats = sink.stats();
-    drop(sink);
+    let fl = matches!(catch_unwind(AssertUnwindSafe(|| sink.flush())), Ok(Ok(())));
+    let stats = catch_unwind(AssertUnwindSafe(|| sink.stats())).unwrap_or_default();
+    let _ = catch_unwind(AssertUnwindSafe(move || drop(sink)));
     stop.store(1, Ordering::Release);
     if let Some(r) = reader {
         let _ = r.join();
@@ -556,10 +614,10 @@ fn main() {
     }
     let nmt = if tier == "quick" { 24 } else { 600 };
     for i in 0..nmt {
-        let kind = if i % 2 == 0 { "bspy" } else { "bunix" };
+        let kind = ["bspy", "bunix", "budp", "unix"][i % 4];
         let cap = [16usize, 64, 512][i % 3];
         let threads = 2 + (i * 3) % 15;
-        let per = if tier == "quick" { 60 } else { 150 + (i * 13) % 300 };
+        let per = if kind == "unix" { 1500 } else if tier == "quick" { 60 } else { 150 + (i * 13) % 300 };
         let flushes = i % 4 == 3;
         let obs = run_mt(kind, cap, threads, per, flushes);
         writeln!(out, "sockmt {} {} {} {} {} => {}", kind, cap, threads, per, if flushes { 1 } else { 0 }, obs).unwrap();
